@@ -17,7 +17,8 @@ RULE = ("one run = one or two Serial devices on the channels of a simulated EL60
         "chunks (1..22 bytes) at drawn times; the application side writes drawn chunks "
         "(1..60 bytes) into the device's real pipe and drains the receive pipe every cycle; "
         "both directions are active at once; 60-300 cycles plus a drain phase; oracles at the "
-        "terminal (what it accepted, under which toggles) and at the pipes; distinct = "
+        "terminal (what it accepted, under which toggles; every announced chunk acknowledged) "
+        "and at the pipes; distinct = "
         "distinct event-log digests; non-trivial = at least 3 chunks in each direction")
 COMPONENTS = {
     "real": ["ebpfcat.serial.Serial.update", "ebpfcat.terminals.EL6002.Channel descriptors",
@@ -245,6 +246,13 @@ def run(tape, scenario):
                      f"channel {i + 1}: the terminal announced {len(w)} bytes in "
                      f"{ch.chunks_announced} chunks, the application read {len(g)}; first "
                      f"difference at byte {k}: announced {w[k:k + 12].hex()} read {g[k:k + 12].hex()}")
+            if ch.wait_ack and finishing[0]:
+                # the drain phase ended because nothing moved for 60 cycles (or everything
+                # else was through): the last announced chunk was never acknowledged
+                viol("announced-chunk-not-acknowledged",
+                     f"channel {i + 1}: chunk {ch.chunks_announced} was announced by a toggle "
+                     f"of receive_request (now {ch.rr}) but receive_accept never toggled "
+                     f"(still {ch.last_ra}) during {cycles[0] - progress[1]} further cycles")
     finally:
         for d in devices:
             for fd in (d.in_read, d.in_write, d.out_read, d.out_write):
